@@ -239,8 +239,10 @@ class System(world.World):
                 bad.append((name, 'ended'))
         return bad
 
-    def boot(self, blocks, mempool_txs=()):
-        '''Controller.serve's start-up, under the default schedule.'''
+    def boot(self, blocks, mempool_txs=(), populate='first'):
+        '''Controller.serve's start-up, under the default schedule.  populate='stalled': the
+        header merkle cache's populating read (a task of its own in the Controller) has been
+        made but its result is not handed over yet - self.x_populate_job.deliver() does that.'''
         self.daemon.set_chain(blocks)
         self.daemon.set_mempool(list(mempool_txs))
         scheduled = not self.daemon.immediate
@@ -252,7 +254,17 @@ class System(world.World):
         self.run_idle(until=self.caught_up_event.is_set)
         if not self.caught_up_event.is_set():
             raise Broken('boot: block processor did not catch up')
-        self.loop.run_coro(self.db.populate_header_merkle_cache(), fire_timers=False)
+        if populate == 'stalled':
+            self.populate_task = self.loop.create_task(self.db.populate_header_merkle_cache())
+            while self.loop.step_ready():
+                pass
+            jobs = self.loop.pending_jobs()
+            if len(jobs) != 1:
+                raise Broken('boot: the populating read of the header merkle cache is not pending')
+            self.x_populate_job = jobs[0]
+            self.loop.run_job(jobs[0], deliver=False)
+        else:
+            self.loop.run_coro(self.db.populate_header_merkle_cache(), fire_timers=False)
         self.mp_task = self.loop.create_task(self.mempool.keep_synchronized(self.mempool_event))
         self.run_idle()
         if self.session_mgr.notified_height is None:
